@@ -199,6 +199,8 @@ def run(c, a):
     recs = []
     for rc, out_, outp in res:
         if rc != 0 or not os.path.exists(outp):
+            if c.crash_verdict("Pipeline", rc, outp):
+                continue
             raise Broken("pipeline shard failed rc=%s: %s" % (rc, out_[-1500:]))
         for line in open(outp):
             recs.append(json.loads(line))
